@@ -1100,10 +1100,11 @@ def inband_run(cfg, chooser, seed=0):
     two events is split like a stream ending there (splitter model), every event is raised exactly once, after all
     data sent before it and before any data sent after it."""
     script, pkt, calls, text = cfg['script'], cfg['pkt'], cfg['calls'], cfg.get('text', False)
+    win = cfg.get('win')
     loop = P.fresh(seed)
     P.install_wire_labels()
     results = []
-    st = {'permits': 0, 'waiting': None, 'done': False}
+    st = {'permits': 0, 'waiting': None, 'done': False, 'sync': None}
     try:
         enc = 'utf-8' if text else None
 
@@ -1138,7 +1139,10 @@ def inband_run(cfg, chooser, seed=0):
                     results.append((op, 'event', _ev_of(exc)))
             st['done'] = True
             process.exit(0)
-        pair = P.Pair(loop, sopts=dict(process_factory=handler, encoding=enc, max_pktsize=pkt))
+        so = dict(process_factory=handler, encoding=enc, max_pktsize=pkt)
+        if win:
+            so['window'] = win      # = the handler's stream buffer limit
+        pair = P.Pair(loop, sopts=so)
         pair.handshake()
 
         async def client():
@@ -1154,6 +1158,12 @@ def inband_run(cfg, chooser, seed=0):
                     proc.send_break(a[1])
                 elif a[0] == 'winch':
                     proc.change_terminal_size(a[1], a[2])
+                elif a[0] == 'sync':
+                    # carry on only when the handler has consumed everything sent so far (data is subject to the
+                    # window, requests are not: without this a signal could overtake data waiting for window)
+                    st['sync'] = loop.create_future()
+                    await st['sync']
+                    st['sync'] = None
             proc.stdin.write_eof()
             return proc
         task = loop.create_task(client())
@@ -1169,9 +1179,17 @@ def inband_run(cfg, chooser, seed=0):
                 opts.append('deliver')
             if st['waiting'] is not None and not st['waiting'].done() and not st['done']:
                 opts.append('call')
-            if not opts or st['done']:
+            if st['done']:
                 break
-            k = chooser.choose(len(opts), label='step') if len(opts) > 1 else 0
+            if not opts:
+                if st['sync'] is not None and not st['sync'].done():
+                    st['sync'].set_result(None)
+                    continue
+                break
+            if st['sync'] is not None and 'call' in opts and 'deliver' not in opts:
+                k = 0               # nothing else can happen: the reader catches up
+            else:
+                k = chooser.choose(len(opts), label='step') if len(opts) > 1 else 0
             if opts[k] == 'deliver':
                 P.deliver_packet(loop, pair.st)
             else:
@@ -1187,6 +1205,8 @@ def inband_run(cfg, chooser, seed=0):
         # segments of the script
         segs, evs, cur = [], [], ('' if text else b'')
         for a in script:
+            if a[0] == 'sync':
+                continue
             if a[0] == 'w':
                 cur += a[1]
             else:
@@ -1195,7 +1215,7 @@ def inband_run(cfg, chooser, seed=0):
                 cur = cur[:0]
         segs.append(cur)
         si = 0
-        m = Model(segs[0])
+        m = Model(segs[0], limit=win)
         for rec in results:
             op = rec[0]
             if rec[1] == 'event':
@@ -1206,7 +1226,9 @@ def inband_run(cfg, chooser, seed=0):
                     viol.append(('wrong-event', '%r raised, expected %r' % (rec[2], evs[si] if si < len(evs) else 'EOF')))
                     break
                 si += 1
-                m = Model(segs[si])
+                m = Model(segs[si], limit=win)
+                continue
+            if m.overrun(op, rec):
                 continue
             at_end = m.p == len(m.d)
             if at_end and si < len(evs) and op != ('read', 0):
@@ -1275,6 +1297,24 @@ def inband_jobs(tier):
         for cname, calls in callsets.items():
             for pkt in (2, 32768):
                 jobs.append((dict(name=sname, script=script, pkt=pkt, cname=cname, calls=calls), bound))
+    # a small stream buffer (window 64): partial lines interrupted again and again, the handler catching up in between
+    # (what each interrupted read took out of the buffer must also leave the buffer's accounting), then lines
+    # around the buffer size arriving in pieces
+    S, W, Y = ('sig', 'INT'), ('winch', 90, 20), ('sync',)
+    w = lambda d: ('w', d)
+    b = lambda n, c=b'p': c * n
+    wscripts = {
+        'interrupted-x3-then-line': [w(b(20)), S, Y, w(b(20, b'q')), W, Y, w(b(20, b'r')), S, Y, w(b(30, b's')), w(b'tail\n'), Y, w(b(50, b't') + b'\n'), w(b'end\n')],
+        'interrupted-x4-two-chunks': [w(b(10)), w(b(10, b'u')), S, Y] * 4 + [w(b(40, b'v')), Y, w(b(10, b'w') + b'\n'), w(b'z\n')],
+        'full-then-event': [w(b(60)), Y, w(b(10, b'x')), W, Y, w(b'y\n'), w(b'end\n')],
+        # exactly one buffer of partial line with the event right behind it, both there before the handler looks
+        'window-exactly-then-event': [w(b(64)), W, Y, w(b'y\n'), w(b'end\n')],
+        'window-exactly-two-chunks-then-event': [w(b(32)), w(b(32, b'k')), S, Y, w(b'y\n'), w(b'end\n')],
+    }
+    for sname, script in wscripts.items():
+        for cname in ('readline', 'readuntil(nl)', 'read(100)', 'readexactly(4)', 'mixed'):
+            for pkt in (8, 32768):
+                jobs.append((dict(name=sname, script=script, pkt=pkt, win=64, cname=cname, calls=callsets[cname]), bound))
     T = [('w', 'aé'), ('w', '€b'), ('sig', 'TERM'), ('w', '\U0001d11e\nz'), ('w', 'y'), ('break', 0), ('w', 'q')]
     for cname, calls in (('readline', [('readline',)]), ('read(1)', [('read', 1)]), ('readexactly(3)', [('readexactly', 3)]),
                          ('readuntil(€)', [('readuntil', '€')])):
